@@ -9,7 +9,7 @@ from sa.formula import Formula, Unrecognised
 from sa.index import walk_own
 from sa.paths import Path, U, clone, strip_v
 from sa.report import Ctx
-from rules.common import S, enum_paths, fact_where, find_calls, label_source, loops_of
+from rules.common import label_ok, S, enum_paths, fact_where, find_calls, label_source, loops_of
 
 EXPLANATION = (
     "Decides: (1) exactly-once accounting in CLEAR._calculate_tp_fp – the body of the per-result loop is enumerated with the inner "
@@ -132,11 +132,12 @@ def rule_accounting(ctx: Ctx) -> None:
     ctx.require({"skip", "fp", "tp-cur", "tp-carried"} <= kinds, f"_calculate_tp_fp: path kinds {sorted(kinds)} – expected skip, fp, tp-cur, tp-carried")
     ctx.require(n >= 12, f"_calculate_tp_fp: only {n} body paths")
     # threshold by GT label (falling back to the estimate's)
-    for bp in lp.body[:1] + lp.body[-1:]:
+    for bp in lp.body:
         for c in find_calls(bp, "get_label_threshold"):
             a = c.kwargs.get("semantic_label") or (c.args[0] if c.args else None)
-            src = label_source(a, cur) if a is not None else "none"
-            ctx.check(src == "gt-else-est", "R-THRLABEL", "_calculate_tp_fp", "matching-threshold",
+            ok_l, src = label_ok(ctx, bp, a, cur) if a is not None else (False, "none")
+            ctx.require(ok_l is not None, f"_calculate_tp_fp: the label used for the threshold look-up (`{S(a)[:80]}`) is not recognised")
+            ctx.check(ok_l, "R-THRLABEL", "_calculate_tp_fp", "matching-threshold",
                       f"the matching threshold is looked up with `{S(a) if a is not None else None}` ({src}); it must be the ground truth's label, the estimate's only without ground truth", fi=fi)
     for p in paths:
         rv = p.retval
